@@ -70,7 +70,10 @@ def markdown(
     if renderer == "ast":
         # explicit and more similar to 2.x's API
         renderer = None
-    key = (escape, renderer, tuple(plugins) if plugins is not None else None)
+    if plugins is not None:
+        # read a one-shot iterable once, for the cache key and for the converter
+        plugins = tuple(plugins)
+    key = (escape, renderer, plugins)
     if key in __cached_parsers:
         return __cached_parsers[key](text)
 
